@@ -55,6 +55,16 @@ fn verifiers(mode: &str) -> Vec<(&'static str, Vf)> {
 
 fn so_sign(m: &[u8], sk: &[u8; 64], mode: &str) -> Sig {
     let mut sig = [0u8; 64];
+    // the confusion modes of Sign.tla: a pure-mode signature over the digest the pre-hashed mode would sign
+    if mode == "pure_over_digest" || mode == "pure_over_dom2_digest" {
+        let mut h = [0u8; 64];
+        unsafe { so::crypto_hash_sha512(h.as_mut_ptr(), m.as_ptr(), m.len() as u64) };
+        let mut signed: Vec<u8> = vec![];
+        if mode == "pure_over_dom2_digest" { signed.extend_from_slice(b"SigEd25519 no Ed25519 collisions"); signed.push(1); signed.push(0); }
+        signed.extend_from_slice(&h);
+        unsafe { so::crypto_sign_detached(sig.as_mut_ptr(), std::ptr::null_mut(), signed.as_ptr(), signed.len() as u64, sk.as_ptr()) };
+        return sig;
+    }
     unsafe {
         if mode == "pure" { so::crypto_sign_detached(sig.as_mut_ptr(), std::ptr::null_mut(), m.as_ptr(), m.len() as u64, sk.as_ptr()); }
         else { let mut st: so::crypto_sign_state = std::mem::zeroed(); so::crypto_sign_init(&mut st); so::crypto_sign_update(&mut st, m.as_ptr(), m.len() as u64); so::crypto_sign_final_create(&mut st, sig.as_mut_ptr(), std::ptr::null_mut(), sk.as_ptr()); }
@@ -121,7 +131,16 @@ pub fn algebra_cases(kseed: &[u8; 32], msg: &[u8], mode: &str, rng: &mut Rng) ->
                     let rb = rpt.compress().to_bytes();
                     let k = hk(&rb, &pkb);
                     let s = r + k * asec;
-                    if B * s != rpt + apt * k { continue; }     // the torsion parts do not cancel for this candidate
+                    if B * s != rpt + apt * k {
+                        // the torsion parts do not cancel: the cofactorless equation fails.  Where [8] times it holds and nothing
+                        // else is wrong, only a cofactored verifier would accept: strict verification must not
+                        if rshape == "full" && (*ashape == "honest" || *ashape == "mixed") && (B * s - rpt - apt * k).is_small_order() {
+                            let mut sig = [0u8; 64];
+                            sig[..32].copy_from_slice(&rb); sig[32..].copy_from_slice(s.as_bytes());
+                            out.push(AlgCase { family: format!("cofactored_only/{}", ashape), sig, pk: pkb, accept: false });
+                        }
+                        continue;
+                    }
                     let rname = if rshape == "full" { "full" } else if rpt.is_identity() { "neutral" } else { "small" };
                     let mut sig = [0u8; 64];
                     sig[..32].copy_from_slice(&rb); sig[32..].copy_from_slice(s.as_bytes());
